@@ -11,6 +11,9 @@ never a property violation.
 """
 import pickle
 
+import hashlib
+import re
+
 import numpy as np
 
 import simworld
@@ -181,6 +184,44 @@ def _byteview(a):
 def _no_in_place(x, op):
     if x is IN_PLACE:
         raise SimUnsupported('MPI.IN_PLACE in %s is not modelled' % op)
+
+
+_SCRATCH_RE = re.compile(r"/[^\s'\"]*pygyro-verif-\d+(/w[A-Za-z0-9_]+)?")
+_ROOTED_SEND = ('Bcast', 'bcast', 'Scatter', 'Scatterv', 'scatter')
+
+
+def _send_digest(op, sig, payload, rank):
+    """What this rank contributes to a collective (send side only), for the hash-seed invariance
+    traces: receive buffers hold whatever was there before and are left out; for operations whose
+    data come from the root only the root's contribution counts."""
+    if op in _ROOTED_SEND and sig and int(sig[0]) != rank:
+        return '-'
+    if isinstance(payload, tuple) and len(payload) == 2 and op[:1].isupper() and op not in ('Split',):
+        payload = payload[0]
+    h = hashlib.sha256()
+
+    def feed(x):
+        if x is None:
+            h.update(b'N')
+        elif isinstance(x, Buf):
+            h.update(x.dt.name.encode())
+            h.update(bytes(x.bytes if x.counts is not None else x.bytes[:x.nbytes()]))
+        elif isinstance(x, np.ndarray):
+            h.update(str(x.dtype).encode())
+            h.update(np.ascontiguousarray(x).tobytes())
+        elif isinstance(x, (tuple, list)):
+            h.update(b'[')
+            for y in x:
+                feed(y)
+            h.update(b']')
+        elif isinstance(x, dict):
+            for k in sorted(x, key=repr):
+                feed(k)
+                feed(x[k])
+        else:
+            h.update(_SCRATCH_RE.sub('<SCRATCH>', repr(x)).encode())
+    feed(payload)
+    return h.hexdigest()[:10]
 
 
 def parse_buf(spec, writable=False, vector=False):
@@ -371,8 +412,11 @@ class Comm(metaclass=_CommMeta):
     def _coll(self, op, sig, payload, complete, rule='all'):
         if self._freed:
             raise RuntimeError('communicator used after Free()')
+        pd = None
+        if self._world.sched.get('trace_payloads'):
+            pd = _send_digest(op, sig, payload, self._rank)
         return self._world.collective(self._wrank, self._cid, self._members, op, sig,
-                                      payload, complete, rule)
+                                      payload, complete, rule, pd)
 
     def _check_root(self, root):
         root = int(root)
